@@ -71,7 +71,8 @@ def run_playback(repo, harness, playback_src):
         env = dict(os.environ)
         env['CARGO_NET_OFFLINE'] = 'true'
         env.pop('RUSTUP_TOOLCHAIN', None)
-        cmd = ['cargo', 'kani', 'playback', '-Z', 'concrete-playback', '--target-dir', kani_unit.TARGET_DIR + '-playback', '--', test]
+        env['CARGO_TARGET_DIR'] = kani_unit.TARGET_DIR + '-playback'
+        cmd = ['cargo', 'kani', 'playback', '-Z', 'concrete-playback', '--', test]
         p = subprocess.run(cmd, cwd=crate, stdout=subprocess.PIPE, stderr=subprocess.STDOUT, text=True, env=env, timeout=1500)
         out = p.stdout
         reproduced = bool(re.search(r'test result: FAILED|panicked at', out)) and 'could not compile' not in out
